@@ -1188,6 +1188,38 @@ def m_vec_push(ex, st, call, args):
     return _ret(st, UNIT)
 
 
+def m_vec_remove(ex, st, call, args):
+    """Vec::remove(&mut v, i) on a vector with a concrete number of elements and a constant index (concrete-iterator mode)"""
+    if not ex.concrete_iters or args[0][0] != "ref":
+        return NotImplemented
+    xs = _concrete_items(ex, st, args[0])
+    i = ex.canon(st, args[1])
+    if xs is None or i[0] != "const" or not isinstance(i[1], int) or isinstance(i[1], bool):
+        return NotImplemented
+    if not (0 <= i[1] < len(xs)):
+        def gen():
+            yield st, "panic", None
+        return gen()
+    ex.store(st, args[0][1], ("call", "vec!", (("array", tuple(xs[:i[1]]) + tuple(xs[i[1] + 1:])),)), log=False)
+    return _ret(st, xs[i[1]])
+
+
+def m_vec_insert(ex, st, call, args):
+    """Vec::insert(&mut v, i, x) on a vector with a concrete number of elements and a constant index (concrete-iterator mode)"""
+    if not ex.concrete_iters or args[0][0] != "ref":
+        return NotImplemented
+    xs = _concrete_items(ex, st, args[0])
+    i = ex.canon(st, args[1])
+    if xs is None or i[0] != "const" or not isinstance(i[1], int) or isinstance(i[1], bool):
+        return NotImplemented
+    if not (0 <= i[1] <= len(xs)):
+        def gen():
+            yield st, "panic", None
+        return gen()
+    ex.store(st, args[0][1], ("call", "vec!", (("array", tuple(xs[:i[1]]) + (ex.canon(st, args[2]),) + tuple(xs[i[1]:])),)), log=False)
+    return _ret(st, UNIT)
+
+
 def m_is_empty(ex, st, call, args):
     xs = _concrete_items(ex, st, args[0])
     if xs is None:
@@ -1522,6 +1554,61 @@ def m_option_map_or(ex, st, call, args):
     return gen()
 
 
+def m_option_is_and(default):
+    """Option::is_some_and (default False) / is_none_or (default True)"""
+    def model(ex, st, call, args):
+        try:
+            f = args[1]
+            fv = ex.load(st, f[1]) if f[0] == "ref" else (f[1] if f[0] == "&" else f)
+            if fv[0] != "closure":
+                return NotImplemented
+        except Exception:
+            return NotImplemented
+
+        def gen():
+            for s, is_some, payload in _opt_cases(ex, st, args[0]):
+                if not is_some:
+                    yield s, "ret", ("const", default)
+                else:
+                    for s2, v in _call_closure_paths(ex, s, args[1], [payload]):
+                        yield s2, "ret", v
+        return gen()
+    return model
+
+
+def logging_off(ex):
+    """Explore only the paths on which the `log` macros are disabled: `Level::X <= STATIC_MAX_LEVEL / max_level()` is false.  The macros
+    only format and emit a record, so the data computed on the other paths is the same."""
+    base = ex.models.get("core::cmp::PartialOrd::le")
+
+    def le(ex_, st, call, args):
+        a = ex_.canon(st, ex_.deref_val(st, args[0])) if args else None
+        if a is not None and a[0] == "adt" and a[1] == "log::Level":
+            return _ret(st, ("const", False))
+        return base(ex_, st, call, args) if base else NotImplemented
+    ex.models["core::cmp::PartialOrd::le"] = le
+
+
+def m_bool_then(ex, st, call, args):
+    """bool::then(c, f) = if c { Some(f()) } else { None }"""
+    try:
+        f = args[1]
+        fv = ex.load(st, f[1]) if f[0] == "ref" else (f[1] if f[0] == "&" else f)
+        if fv[0] != "closure":
+            return NotImplemented
+    except Exception:
+        return NotImplemented
+
+    def gen():
+        for s, b in _fork_bool(ex, st, args[0]):
+            if not b:
+                yield s, "ret", ("adt", "core::option::Option", "None", ())
+            else:
+                for s2, v in _call_closure_paths(ex, s, args[1], []):
+                    yield s2, "ret", ("adt", "core::option::Option", "Some", (v,))
+    return gen()
+
+
 def m_option_or(ex, st, call, args):
     def gen():
         for s, is_some, payload in _opt_cases(ex, st, args[0]):
@@ -1645,6 +1732,8 @@ DEFAULT_MODELS = {
     "alloc::vec::Vec::<T>::new": m_vec_new,
     "alloc::vec::Vec::<T>::with_capacity": m_vec_new,
     "alloc::vec::Vec::<T, A>::push": m_vec_push,
+    "alloc::vec::Vec::<T, A>::remove": m_vec_remove,
+    "alloc::vec::Vec::<T, A>::insert": m_vec_insert,
     "core::slice::<impl [T]>::swap": m_slice_swap,
     "core::ops::arith::AddAssign::add_assign": m_assign_op("add"),
     "core::ops::arith::SubAssign::sub_assign": m_assign_op("sub"),
@@ -1677,6 +1766,9 @@ DEFAULT_MODELS = {
     "core::option::Option::<T>::unwrap_or": m_option_unwrap_or,
     "core::option::Option::<T>::or": m_option_or,
     "core::option::Option::<T>::map_or": m_option_map_or,
+    "core::bool::<impl bool>::then": m_bool_then,
+    "core::option::Option::<T>::is_some_and": m_option_is_and(False),
+    "core::option::Option::<T>::is_none_or": m_option_is_and(True),
     "core::option::Option::<T>::unwrap_or_else": m_option_unwrap_or_else,
     "core::array::<impl [T; N]>::map": m_array_map,
     "alloc::slice::<impl [T]>::sort": m_sort,
